@@ -18,37 +18,61 @@ SX = oqupy.operators.sigma("x")
 
 
 class Family:
-    """A class of parameterised objects whose memoised answers are linear in the parameter, so the
-    parameter version an answer was computed from is observable."""
+    """A class of parameterised objects; the parameter version p (1..5) an answer was computed from is observable
+    because the answers of fresh objects differ for different p (looked up among the fresh answers)."""
+
+    ATTR = {   # name -> (class, attribute set after construction, value for version p)
+        "PowerLawSD.alpha": ("power", "alpha", lambda p: 0.1 * p),
+        "PowerLawSD.zeta": ("power", "zeta", lambda p: 0.5 + 0.5 * p),
+        "PowerLawSD.cutoff": ("power", "cutoff", lambda p: 1.0 + p),
+        "PowerLawSD.temperature": ("power", "temperature", lambda p: 0.3 * (p - 1)),
+        "PowerLawSD.cutoff_type": ("power", "cutoff_type", lambda p: ["hard", "exponential", "gaussian"][p % 3]),
+        "CustomSD.cutoff_type": ("custom", "cutoff_type", lambda p: ["hard", "exponential", "gaussian"][p % 3]),
+        "CustomSD.temperature": ("custom", "temperature", lambda p: 0.4 * (p - 1)),
+    }
+    NP = {"PowerLawSD.cutoff_type": 3, "CustomSD.cutoff_type": 3}
 
     def __init__(self, name):
         self.name = name
-        self.unit = {}
+        self.ref = {}
+
+    def nversions(self):
+        return self.NP.get(self.name, 5)
 
     def new(self, p):
-        if self.name == "PowerLawSD.alpha":
-            return oqupy.PowerLawSD(alpha=0.1 * p, zeta=1, cutoff=3.0, cutoff_type="exponential", temperature=0.2)
+        if self.name in self.ATTR:
+            cls, attr, val = self.ATTR[self.name]
+            kw = dict(cutoff=3.0, cutoff_type="exponential", temperature=0.2)
+            if cls == "power":
+                kw.update(alpha=0.2, zeta=1.0)
+                kw[attr] = val(p)
+                return oqupy.PowerLawSD(**kw)
+            kw[attr] = val(p)
+            return oqupy.CustomSD(lambda w: 0.3 * w, **kw)
         if self.name == "CustomSD.j_function":
             return oqupy.CustomSD(lambda w, p=p: 0.1 * p * w, cutoff=2.0, cutoff_type="gaussian")
         return oqupy.CustomCorrelations(lambda t, p=p: 0.1 * p * np.exp(-t * t))
 
     def set(self, obj, p):
-        if self.name == "PowerLawSD.alpha":
-            obj.alpha = 0.1 * p
+        if self.name in self.ATTR:
+            _, attr, val = self.ATTR[self.name]
+            setattr(obj, attr, val(p))
         elif self.name == "CustomSD.j_function":
             obj.j_function = np.vectorize(lambda w, p=p: 0.1 * p * w)
         else:
             obj.correlation_function = np.vectorize(lambda t, p=p: 0.1 * p * np.exp(-t * t))
 
+    def _ask(self, obj, a):
+        return complex(obj.correlation_2d_integral(0.1 * (1 + a % 2), 0.1 * (a // 2), shape="square" if a >= 2 else "upper-triangle", epsrel=1e-8))
+
     def call(self, obj, a):
-        v = obj.correlation_2d_integral(0.1 * (1 + a % 2), 0.1 * (a // 2), shape="square" if a >= 2 else "upper-triangle", epsrel=1e-8)
-        if a not in self.unit:
-            self.unit[a] = self.new(1).correlation_2d_integral(0.1 * (1 + a % 2), 0.1 * (a // 2), shape="square" if a >= 2 else "upper-triangle", epsrel=1e-8)
-        r = (v / self.unit[a])
-        ver = int(round(r.real))
-        if abs(r - ver) > 1e-5:
-            return -1
-        return ver
+        v = self._ask(obj, a)
+        if a not in self.ref:
+            self.ref[a] = {q: self._ask(self.new(q), a) for q in range(1, self.nversions() + 1)}
+            vals = list(self.ref[a].values())
+            assert all(abs(x - y) > 1e-6 * abs(x) for i, x in enumerate(vals) for y in vals[i + 1:]), "versions not distinguishable"
+        hits = [q for q, r in self.ref[a].items() if abs(v - r) <= 1e-9 * abs(r)]
+        return hits[0] if len(hits) == 1 else -1
 
     def copy(self, obj, how):
         if how == 0:
@@ -76,19 +100,44 @@ def run(chk):
     exprs, expected, meta = [], [], []
 
     # ---- (a) operation sequences on shared correlations objects ------------------------------
-    n_seq = 150 if thorough else 50
-    fams = [Family("PowerLawSD.alpha"), Family("CustomSD.j_function"), Family("CustomCorrelations.function")]
-    for it in range(n_seq):
-        fam = rng.choice(fams)
+    n_seq = 240 if thorough else 72
+    fams = [Family(n) for n in list(Family.ATTR) + ["CustomSD.j_function", "CustomCorrelations.function"]]
+    for it in range(n_seq + 2 * len(fams)):
+        fam = rng.choice(fams) if it >= 2 * len(fams) else fams[it // 2]
         objs, ops, got = [], [], []
-        for k in range(rng.randint(3, 8)):
+        # the first two sequences of every family follow the stale-answer pattern: ask, change the parameter, ask the
+        # SAME question again (on the object, on a copy made before / after the change); the others are random
+        script = None
+        if it < 2 * len(fams):
+            a0, p0 = rng.randint(0, 3), rng.randint(1, fam.nversions())
+            p1 = rng.choice([q for q in range(1, fam.nversions() + 1) if q != p0])
+            script = [("new", p0), ("call", 0, a0), ("copy", 0), ("set", 0, p1), ("call", 0, a0), ("call", 1, a0), ("copy", 0), ("call", 2, a0),
+                      ("set", 1, p1), ("call", 1, a0)] if it % 2 == 0 else \
+                     [("new", p0), ("new", p1), ("call", 0, a0), ("call", 1, a0), ("set", 0, p1), ("set", 1, p0), ("call", 0, a0), ("call", 1, a0)]
+        for k in range(len(script) if script else rng.randint(3, 8)):
             kind = rng.choice(["new", "set", "call", "call", "call", "copy"]) if objs else "new"
+            if script:
+                st = script[k]
+                kind = st[0]
+                if kind == "new":
+                    objs.append(fam.new(st[1]))
+                    ops.append(f"New nat {st[1]}")
+                elif kind == "set":
+                    fam.set(objs[st[1]], st[2])
+                    ops.append(f"Set_ nat {st[1]} {st[2]}")
+                elif kind == "call":
+                    got.append((len(ops), fam.call(objs[st[1]], st[2])))
+                    ops.append(f"Call nat {st[1]} {st[2]}")
+                else:
+                    objs.append(fam.copy(objs[st[1]], k % 2))
+                    ops.append(f"Copy nat {st[1]}")
+                continue
             if kind == "new":
-                p = rng.randint(1, 5)
+                p = rng.randint(1, fam.nversions())
                 objs.append(fam.new(p))
                 ops.append(f"New nat {p}")
             elif kind == "set":
-                i, p = rng.randrange(len(objs)), rng.randint(1, 5)
+                i, p = rng.randrange(len(objs)), rng.randint(1, fam.nversions())
                 fam.set(objs[i], p)
                 ops.append(f"Set_ nat {i} {p}")
             elif kind == "call":
